@@ -168,6 +168,11 @@ func lifeOps(withAlign, withSkip bool) []lifeOp {
 			m.rows = append(m.rows, []*lifeCell{a, b})
 			m.t.AddRowItems(a.ptr, b.ptr)
 		}},
+		{"AddRowItems(3 cells)  // wider than the header: a column without a header", func(m *lifeModel) bool { return len(m.rows) < 4 && m.ncols() < 3 }, func(m *lifeModel) {
+			a, b, cc := m.newCell("w1", mS, ItemF{}), m.newCell("w2", mS, ItemF{}), m.newCell("w3", mS, ItemF{})
+			m.rows = append(m.rows, []*lifeCell{a, b, cc})
+			m.t.AddRowItems(a.ptr, b.ptr, cc.ptr)
+		}},
 		{"row 2 .Add(cell)  // row already attached", func(m *lifeModel) bool { return len(m.rows[1]) < 2 }, func(m *lifeModel) {
 			a := m.newCell("late", mS, ItemF{})
 			m.rows[1] = append(m.rows[1], a)
@@ -175,14 +180,15 @@ func lifeOps(withAlign, withSkip bool) []lifeOp {
 		}},
 	}
 	if withAlign {
-		for col := 0; col <= 2; col++ {
+		for col := 0; col <= 3; col++ {
 			for _, av := range []struct {
 				n string
 				v interface{}
 			}{{"right", align.Right}, {"centre", align.Center}, {"left", align.Left}, {"unset", nil}} {
 				col, av := col, av
-				ops = append(ops, lifeOp{fmt.Sprintf("Column(%d) alignment = %s", col, av.n), always, func(m *lifeModel) {
-					for len(m.aligns) <= 2 {
+				exists := func(m *lifeModel) bool { return col <= 2 || m.ncols() >= col }
+				ops = append(ops, lifeOp{fmt.Sprintf("Column(%d) alignment = %s", col, av.n), exists, func(m *lifeModel) {
+					for len(m.aligns) <= 3 {
 						m.aligns = append(m.aligns, nil)
 					}
 					m.aligns[col] = av.v
@@ -192,13 +198,14 @@ func lifeOps(withAlign, withSkip bool) []lifeOp {
 		}
 	}
 	if withSkip {
-		for col := 0; col <= 2; col++ {
+		for col := 0; col <= 3; col++ {
 			for _, sv := range []struct {
 				n string
 				v interface{}
 			}{{"true", true}, {"false", false}, {"unset", nil}} {
 				col, sv := col, sv
-				ops = append(ops, lifeOp{fmt.Sprintf("Column(%d) skipable = %s", col, sv.n), always, func(m *lifeModel) {
+				exists := func(m *lifeModel) bool { return col <= 2 || m.ncols() >= col }
+				ops = append(ops, lifeOp{fmt.Sprintf("Column(%d) skipable = %s", col, sv.n), exists, func(m *lifeModel) {
 					if sv.v == nil {
 						delete(m.skip, col)
 					} else {
@@ -213,6 +220,9 @@ func lifeOps(withAlign, withSkip bool) []lifeOp {
 	return ops
 }
 
+// lifeWideStart: checks whose lifecycle family also starts from a table with a header-less third column.
+var lifeWideStart = map[string]bool{"C03": true, "C04": true, "C05": true, "C08": true, "C09": true}
+
 type lifeRenderer interface {
 	Render() (string, error)
 	RenderTo(io.Writer) error
@@ -222,6 +232,14 @@ type lifeRenderer interface {
 // "Render" (judged) and "RenderTo a writer that fails at call 2" (not judged; it must only not poison later renders).
 func lifecycle(x *X, c *Chooser, prop string, depth int, ops []lifeOp, overrides bool, mk func(t tabular.Table) lifeRenderer, judge func(m *lifeModel, tags []string, out string, err error)) {
 	m := newLife(overrides)
+	if lifeWideStart[prop] && c.Bool() {
+		// second starting point: the table already has a row wider than its header (a column without a header)
+		c.Logf("start: the table already has a third, header-less column")
+		a, b, cc := m.newCell("w1", mS, ItemF{}), m.newCell("w2", mS, ItemF{}), m.newCell("w3", mS, ItemF{})
+		m.rows = append(m.rows, []*lifeCell{a, b, cc})
+		m.t.AddRowItems(a.ptr, b.ptr, cc.ptr)
+		m.ops = append(m.ops, "start-with-headerless-column")
+	}
 	var w lifeRenderer
 	renders := 0
 	changedSince := false
